@@ -1190,6 +1190,100 @@ def kernels_exec(mod, table):
     return ex
 
 
+def extract_ops(repo):
+    """The operator list of `AbstractObject` read with `ast`: every method whose body is
+    `return self._compose_*(selector, …)`.  Anything else in a method body is unsupported."""
+    mod = PyModule(Path(repo) / 'sc3' / 'base' / 'absobject.py')
+    cls = mod.classes.get('AbstractObject')
+    if cls is None:
+        raise Unsupported('absobject.py: no class AbstractObject')
+    hooks = ('_compose_unop', '_compose_binop', '_rcompose_binop', '_compose_narop')
+    rows = []
+    for m in cls.body:
+        if not isinstance(m, ast.FunctionDef) or m.name in hooks or m.name == '__hash__':
+            continue
+        body = [b for b in m.body
+                if not (isinstance(b, ast.Expr) and isinstance(b.value, ast.Constant))]
+        if len(body) != 1 or not isinstance(body[0], ast.Return) or not isinstance(body[0].value, ast.Call):
+            raise Unsupported(f'AbstractObject.{m.name}: body is not a single `return self._compose_*(…)`')
+        call = body[0].value
+        f = call.func
+        if not (isinstance(f, ast.Attribute) and isinstance(f.value, ast.Name) and f.value.id == 'self'
+                and f.attr in hooks) or call.keywords or not call.args:
+            raise Unsupported(f'AbstractObject.{m.name}: does not forward to a _compose_* hook')
+        sel = call.args[0]
+        if not (isinstance(sel, ast.Attribute) and isinstance(sel.value, ast.Name)
+                and sel.value.id in ('operator', 'bi')):
+            raise Unsupported(f'AbstractObject.{m.name}: selector `{ast.unparse(sel)}`')
+        a = m.args
+        if a.vararg or a.kwarg or a.kwonlyargs or a.posonlyargs:
+            raise Unsupported(f'AbstractObject.{m.name}: variadic parameters')
+        params = [p.arg for p in a.args[1:]]
+
+        def atom(node, what):
+            try:
+                v = ast.literal_eval(node)
+            except (ValueError, SyntaxError):
+                raise Unsupported(f'AbstractObject.{m.name}: {what} `{ast.unparse(node)}` is not a literal')
+            if isinstance(v, bool) or not isinstance(v, (int, float, str)):
+                raise Unsupported(f'AbstractObject.{m.name}: {what} `{v!r}`')
+            if isinstance(v, int):
+                return f'i:{v}'
+            if isinstance(v, float):
+                q = Fraction(v)
+                return f'f:{q.numerator}' if q.denominator == 1 else f'f:{q.numerator}/{q.denominator}'
+            return f's:{v}'
+        defaults = [atom(d, 'default') for d in a.defaults]
+        passes = []
+        for x in call.args[1:]:
+            if isinstance(x, ast.Name) and x.id in params:
+                passes.append(x.id)
+            else:
+                passes.append(atom(x, 'forwarded argument'))
+        rows.append({'method': m.name, 'hook': f.attr, 'ns': sel.value.id, 'sel': sel.attr,
+                     'params': params, 'defaults': defaults, 'passes': passes})
+    return rows
+
+
+def builtin_kinds(mod):
+    """name -> 'unop' | 'binop' | 'narop' for the `@scbuiltin.*` functions of builtins.py, after
+    checking that the three decorators still have the dispatch shape the model assumes."""
+    cls = mod.classes.get('scbuiltin')
+    if cls is None:
+        raise Unsupported('builtins.py: no class scbuiltin')
+    # The model assumes: left operand's hook, else (binop) right operand's reflected hook, else the
+    # numeric function; and the hooks receive the DISPATCHING wrapper, not the raw function.
+    expect = {
+        'unop': ["if hasattr(x, '_compose_unop'):\n    return x._compose_unop(scbuiltin_)", 'return func(x)'],
+        'binop': ["if hasattr(a, '_compose_binop'):\n    return a._compose_binop(scbuiltin_, b)",
+                  "if hasattr(b, '_rcompose_binop'):\n    return b._rcompose_binop(scbuiltin_, a)",
+                  'return func(a, b)'],
+        'narop': ["if hasattr(x, '_compose_narop'):\n    return x._compose_narop(scbuiltin_, *args)",
+                  'return func(x, *args)'],
+    }
+    seen = set()
+    for m in cls.body:
+        if isinstance(m, ast.FunctionDef) and m.name in expect:
+            inner = [n for n in ast.walk(m) if isinstance(n, ast.FunctionDef) and n.name == 'scbuiltin_']
+            if not inner:
+                raise Unsupported(f'scbuiltin.{m.name}: no inner wrapper `scbuiltin_`')
+            for f in inner:
+                got = [ast.unparse(b) for b in f.body]
+                if got != expect[m.name]:
+                    raise Unsupported(f'scbuiltin.{m.name}: wrapper body changed: {got}')
+            seen.add(m.name)
+    if seen != set(expect):
+        raise Unsupported(f'scbuiltin: decorators found {sorted(seen)}')
+    kinds = {}
+    for name, fs in mod.funcs.items():
+        for f in fs:
+            for d in f.decorator_list:
+                u = ast.unparse(d)
+                if u.startswith('scbuiltin.'):
+                    kinds[name] = u.split('.')[1]
+    return kinds
+
+
 def unit_c15(repo):
     src = Path(repo) / 'sc3' / 'base' / 'builtins.py'
     mod = PyModule(src)
@@ -1210,8 +1304,32 @@ def unit_c15(repo):
         'Sc3Verif.C15.GenR', hdr,
         imports=['Mathlib.Analysis.SpecialFunctions.Pow.Real', 'Mathlib.Analysis.SpecialFunctions.Log.Base'],
         extra_top=PRELUDE_REAL)
+    rows = extract_ops(repo)
+    kinds = builtin_kinds(mod)
+
+    def lst(xs):
+        return '[' + ', '.join(lean_string(x) for x in xs) + ']'
+    body = ['/-',
+            'GENERATED by tools/py2lean.py — do not edit; regenerated from $SC3_REPO on every check run.',
+            'Source: sc3/base/absobject.py (class AbstractObject) and the @scbuiltin decorators of',
+            'sc3/base/builtins.py.  The operator table the lifting model dispatches with.',
+            '-/', 'import Sc3Verif.C15.Model', 'namespace Sc3Verif.C15.GenOps', 'open Sc3Verif.C15.Lift', '',
+            '/-- one row per operator method of `AbstractObject` -/', 'def ops : List OpRow := [']
+    body.append(',\n'.join(
+        f'  {{ method := {lean_string(r["method"])}, hook := {lean_string(r["hook"])}, '
+        f'sel := {lean_string(r["sel"])}, params := {lst(r["params"])}, defaults := {lst(r["defaults"])}, '
+        f'passes := {lst(r["passes"])} }}' for r in rows))
+    body.append(']')
+    body.append('')
+    body.append('/-- `@scbuiltin.unop/binop/narop` functions of builtins.py -/')
+    body.append('def builtinKinds : List (String × String) := [')
+    body.append(',\n'.join(f'  ({lean_string(k)}, {lean_string(v)})' for k, v in kinds.items()))
+    body.append(']')
+    body.append('end Sc3Verif.C15.GenOps')
+    files['Sc3Verif/C15/GenOps.lean'] = '\n'.join(body) + '\n'
     index = {'exec': dict(C15_EXEC), 'real': dict(C15_REAL),
-             'defs_exec': [n for n, _ in ex.defs], 'defs_real': [n for n, _ in re_.defs]}
+             'defs_exec': [n for n, _ in ex.defs], 'defs_real': [n for n, _ in re_.defs],
+             'ops': rows, 'builtin_kinds': kinds}
     return files, index
 
 
